@@ -83,6 +83,7 @@ type Outcome struct {
 	Drop       int             // 0 none, 1 close the connection instead of replying, 2 close it right after replying
 	Hold       bool            // compute the reply but keep it until Release*()
 	RawFrame   []byte          // hostile: write these bytes verbatim instead of an encoded frame
+	RawErrBody []byte          // an ERROR frame with this body (uncompressed) on the arrival's stream and version: error codes the reference codec cannot encode
 	Tracing    bool
 	Warnings   []string
 	Payload    map[string][]byte
@@ -851,6 +852,14 @@ func (x *Conn) data(hdr *frame.Header, body *frame.Body, raw []byte, tok string,
 			x.Host.prepared[hex.EncodeToString(pr.PreparedQueryId)] = query
 			x.Host.mu.Unlock()
 		}
+	}
+	if o.RawErrBody != nil && o.RawFrame == nil {
+		h := make([]byte, 9, 9+len(o.RawErrBody))
+		h[0] = byte(hdr.Version) | 0x80
+		binary.BigEndian.PutUint16(h[2:], uint16(hdr.StreamId))
+		h[4] = byte(primitive.OpCodeError)
+		binary.BigEndian.PutUint32(h[5:], uint32(len(o.RawErrBody)))
+		o.RawFrame = append(h, o.RawErrBody...)
 	}
 	if o.RawFrame != nil {
 		ev := mon.Event{Src: "backend", K: "reply", Host: x.Host.Idx, Conn: x.ID, St: int(hdr.StreamId), Tok: tok, Arrival: n, Outcome: o.Name, Body: o.RawFrame, Note: "rawframe"}
